@@ -172,6 +172,16 @@ func mutate(r *hx.RNG, f []byte) []byte {
 func frameTok(src byte, f []byte) string { return fmt.Sprintf("%c:%s", src, hex.EncodeToString(f)) }
 
 func gen(r *hx.RNG, tr *hx.Trace) string {
+	s := gen0(r, tr)
+	if r.Chance(50) { // interface with an IPv6 address besides its IPv4 address
+		v := []string{"46", "64"}[r.Intn(2)]
+		tr.Count("addrs_" + v)
+		return "v=" + v + " " + s
+	}
+	return s
+}
+
+func gen0(r *hx.RNG, tr *hx.Trace) string {
 	h := 3 + r.Intn(2)
 	if r.Chance(6) {
 		tr.Count("pair")
